@@ -24,6 +24,7 @@ from stabilize.models.task import TaskExecution
 from stabilize.models.workflow import Workflow
 from stabilize.persistence.store import WorkflowNotFoundError
 from stabilize.queue.messages import (
+    CancelWorkflow,
     CompleteWorkflow,
     ContinueParentStage,
     InvalidStageId,
@@ -248,6 +249,36 @@ class StabilizeHandler(MessageHandler[M], ABC):
         return None
 
     # ========== Stage Navigation ==========
+
+    def _finish_cancel_for(self, stage: StageExecution, message: Message, handler_type: str) -> None:
+        """Finish an accepted cancel when a handler refuses to start or skip a stage.
+
+        StartStage / SkipStage drop their message once the workflow's cancel flag is
+        set and leave the stage to CancelWorkflow's CancelStage fan-out. A cancel that
+        only wrote the flag (WorkflowStore.cancel() called directly) has no fan-out:
+        the stages that had not started stayed NOT_STARTED and, with nothing else in
+        flight, the workflow RUNNING for ever. Hand the workflow to the regular cancel
+        path: CancelWorkflow cancels every unfinished stage and queues the
+        CompleteWorkflow; it is idempotent when the fan-out did exist.
+        """
+        execution = stage.execution
+        if execution is None or execution.status.is_complete:
+            return
+        with self.repository.transaction(self.queue) as txn:
+            if message.message_id:
+                txn.mark_message_processed(
+                    message_id=message.message_id,
+                    handler_type=handler_type,
+                    execution_id=execution.id,
+                )
+            txn.push_message(
+                CancelWorkflow(
+                    execution_type=execution.type.value,
+                    execution_id=execution.id,
+                    user=execution.canceled_by or "system",
+                    reason=execution.cancellation_reason or "",
+                )
+            )
 
     def start_next(self, stage: StageExecution) -> None:
         """
